@@ -493,6 +493,13 @@ class Interp:
             return T.opaque(bits or 64, "indirect") if bits else None
         if not name.startswith("llvm."):
             S.calls.append((name, args, ins.get("loc")))
+            if name == "posix_memalign":
+                # int posix_memalign(void **memptr, size_t alignment, size_t size): *memptr = block
+                self.do_store(args[0], T.opaque(64, "call:posix_memalign", args[1], args[2]), cond, 8,
+                              "posix_memalign", ins.get("loc"))
+                return T.opaque(bits, "posix_memalign-status", args[1], args[2])
+            if name in ("malloc", "aligned_alloc", "free", "calloc", "realloc"):
+                return T.opaque(bits, "call:" + name, *args) if bits else None
             if name in ("copysign", "copysignf"):
                 return T.concat([T.slice_(args[0], 0, bits - 1), T.msb(args[1])])
             if name in ("fabs", "fabsf"):
